@@ -315,6 +315,56 @@ def order_facts(body, X, bb):
     return out
 
 
+_VARIANT_TESTS = {"std::option::Option::is_some": ("Some", "None"), "std::option::Option::is_none": ("None", "Some"),
+                  "std::result::Result::is_ok": ("Ok", "Err"), "std::result::Result::is_err": ("Err", "Ok")}
+
+
+def variant_facts(body, X, bb):
+    """[(expr, variants tuple, Cond)]: on every path entry->bb the value `expr` is one of `variants`; from `match`/`if let`
+    (a switch on the discriminant) and from `if e.is_some()` / `is_none()` / `is_ok()` / `is_err()` alike"""
+    from mir import strip
+    out = []
+    for c, truth in dominating_conditions(body, bb):
+        if c.kind == "enum":
+            out.append((strip(X.place(body, c.place)), truth, c))
+        elif c.kind == "call" and c.call.name in _VARIANT_TESTS and c.call.args:
+            t, f = _VARIANT_TESTS[c.call.name]
+            out.append((strip(X.operand(body, c.call.args[0])), (t if truth else f,), c))
+    # facts about the values those values were made from
+    i = 0
+    while i < len(out) and len(out) < 400:
+        e, truth, c = out[i]
+        i += 1
+        for a in (e[1] if e[0] == "phi" else (e,)):
+            if a[0] != "call" or not a[2]:
+                continue
+            n, x = a[1], a[2][0]
+            if e[0] == "phi" and len(e[1]) > 1:
+                continue
+            if n == "std::ops::Try::branch":
+                if truth == ("Continue",):
+                    out.append((x, ("Ok",), c))
+                    out.append((x, ("Some",), c))
+                elif truth == ("Break",):
+                    out.append((x, ("Err",), c))
+                    out.append((x, ("None",), c))
+            elif n in _PRESERVING and truth in (("Ok",), ("Err",), ("Some",), ("None",)):
+                out.append((x, truth, c))
+            elif n in ("std::option::Option::ok_or", "std::option::Option::ok_or_else") and truth in (("Ok",), ("Err",)):
+                out.append((x, ("Some",) if truth == ("Ok",) else ("None",), c))
+            elif n == "std::result::Result::ok" and truth in (("Some",), ("None",)):
+                out.append((x, ("Ok",) if truth == ("Some",) else ("Err",), c))
+            elif n == "std::result::Result::err" and truth in (("Some",), ("None",)):
+                out.append((x, ("Err",) if truth == ("Some",) else ("Ok",), c))
+    return out
+
+
+_PRESERVING = {"std::result::Result::map_err", "anyhow::Context::context", "anyhow::Context::with_context", "std::option::Option::as_ref",
+               "std::option::Option::as_mut", "std::result::Result::as_ref", "std::result::Result::as_mut", "std::option::Option::as_deref",
+               "std::result::Result::map", "std::option::Option::map", "std::option::Option::copied", "std::option::Option::cloned",
+               "std::result::Result::inspect_err", "std::option::Option::inspect", "std::result::Result::inspect"}
+
+
 # ---------------------------------------------------------------------------- intervals
 def int_ty(ty):
     return ty if ty in INT_RANGES else None
